@@ -104,7 +104,8 @@ def _worker(payload):
 def run(prop, tier, seed, backends=BACKENDS, only_universe=None):
     out = Outcome(prop, tier, seed, "exploration" if prop == "C04" else "model_checking")
     rnd = random.Random(seed)
-    design = tlc.DesignCheck([("MC_Relay", "MC_Relay_%s%s.cfg" % (b, "_quick" if tier == "quick" else ""), "Relay/" + b) for b in backends],
+    design = tlc.DesignCheck([("MC_Relay", "MC_Relay_%s%s.cfg" % (b, "_quick" if tier == "quick" else ""), "Relay/" + b) for b in backends]
+                             + ([("MC_Relay_live", "MC_Relay_live.cfg", "Relay/liveness-under-fairness")] if prop in ("C13", "C05") else []),
                              workers=3 if tier == "quick" else 7, timeout=3000)
     variants = [(Universe(relay_universe()), "hostile" if prop == "C04" else "plain")]
     if prop == "C04":
